@@ -2,7 +2,7 @@
 states, compared with the reference model's reading of a source text (used by C01, C08, C18)."""
 from fractions import Fraction
 
-from . import lib, model, gen
+from . import lib, model, gen, sx
 
 SLACK = Fraction(1, 1000)
 
@@ -66,6 +66,13 @@ class Probe:
         rng.shuffle(calls)
         calls.sort(key=lambda c: (len(set(c)) == len(c)))
         picked = calls[:1] + rng.sample(calls[1:], min(len(calls) - 1, n_calls - 1)) if len(calls) > 1 else calls
+        # a call that passes a domain constant the action itself mentions (an (in)equality or a literal over that constant
+        # separates such a call from all the others)
+        mentioned = [k for k in self.dom_m.constants if k in sx.tokens(sx.plain(act.pre or [])) + sx.tokens(sx.plain(act.eff or []))]
+        if mentioned:
+            with_k = [c for c in calls if any(k in c for k in mentioned) and c not in picked]
+            if with_k:
+                picked = picked + [rng.choice(with_k)]
         for call in picked:
             b = model.binding(act, call)
             try:
